@@ -385,6 +385,10 @@ def strat_history(tier):
     if tier == 'thorough' and draw(st.integers(0, 15)) == 0:
       ops.insert(draw(st.integers(0, len(ops))), ['flood_objects', draw(st.sampled_from([1023, 1024, 1030]))])
       ops.append(['deref', 0])
+    elif draw(st.integers(0, 19)) == 0:
+      # more than 2**8 held objects are created while earlier handles are still in use (well below the cache bound)
+      ops.insert(draw(st.integers(1, len(ops))), ['flood_objects', draw(st.sampled_from([255, 256, 257, 300]))])
+      ops += [['deref', 0], ['deref', 1]]
     case = {'exprs': exprs, 'ops': ops}
     if draw(st.integers(0, 3)) == 0:
       case['arr_exprs'] = draw(st.lists(st.builds(
